@@ -42,6 +42,29 @@ EXCLUDED = {
 DIM_SEQS = ("shape", "axes", "origin", "points", "coords", "strides", "_shape", "_axes", "_origin")
 
 
+_DIMEXPR = r"(?:[\w\.]*ndim|[\w\.]*dim|len\([\w\.]*shape\)|len\([\w\.]*axes\)|[\w\.]*origin\.size|[\w\.]+\.shape\[1\])"
+
+
+def _three_d(test, polarity):
+    """Does the guard (with its polarity) imply three dimensions?  Accepts any spelling of a
+    comparison between a dimension expression and the literals 2 / 3."""
+    import re
+    t = test.strip()
+    m = re.fullmatch(_DIMEXPR + r" (==|!=|>|>=|<|<=) (\d)", t) or None
+    if m is None:
+        m2 = re.fullmatch(r"(\d) (==|!=|>|>=|<|<=) " + _DIMEXPR, t)
+        if m2 is None:
+            return False
+        flip = {"==": "==", "!=": "!=", ">": "<", ">=": "<=", "<": ">", "<=": ">="}
+        op, k = flip[m2.group(2)], int(m2.group(1))
+    else:
+        op, k = m.group(1), int(m.group(2))
+    # dimensions are 2 or 3 in this module
+    sat = {d for d in (2, 3) if eval(f"{d} {op} {k}")}  # noqa: S307 - literal integers only
+    chosen = sat if polarity else {2, 3} - sat
+    return chosen == {3}
+
+
 def _is_const2(n):
     return isinstance(n, ast.Constant) and n.value == 2 and not isinstance(n.value, bool)
 
@@ -110,8 +133,8 @@ def run(tier="quick", root="/repo", evidence_dir=None, quiet=False):
             where = repo.rel("cubic", node)
             enclosing = _enclosing_branch_key(f.node, node)
             cons = f"{f.qual}{enclosing}"
-            if e6.implies(guards, POS, NEG):
-                g = [t for t, p in guards if (p and t in POS) or (not p and t in NEG)]
+            if e6.implies(guards, POS, NEG) or any(_three_d(t, p) for t, p in guards):
+                g = [t for t, p in guards if (p and t in POS) or (not p and t in NEG) or _three_d(t, p)]
                 rep.ok("third-axis-guarded", f"{cons}::{norm(node)[:40]}", where, f"dominated by {g[0]!r}")
             else:
                 rep.violation("third-axis-guarded", cons, norm(node)[:60],
